@@ -18,7 +18,8 @@ from harness import world
 from harness.common import Ctx
 from harness.translate import status_table
 
-GENERATED = [("harness.translate.status_table", "translate", "gen/StatusTable_gen.v")]
+GENERATED = [("harness.translate.status_table", "translate", "gen/StatusTable_gen.v"),
+             ("harness.translate.atomicity", "translate", "gen/Atomicity_gen.v")]
 
 MANIFEST = {
     "technique": "Coq proof over a table generated from status.py + exhaustive differential correspondence",
@@ -354,16 +355,41 @@ def run_sequences(ctx: Ctx, scratch: str):
                               "alphabet": "2 ids x 6 statuses x 2 requesters (exhaustive part); 3 ids x 14 x 3 (random part)"}
 
 
+def run_two_requesters(ctx: Ctx, scratch: str):
+    """each status change is ONE step: two real requesters on one invocation, interleaved at SQL-statement (SQLite) and
+    source-line (in-memory) granularity; the committed changes of the invocation must follow documented edges"""
+    from harness import sched as S
+    from harness.props import c02
+    c02.EDGES = c02.D.doc_edges(ctx)
+    sc = {"n": 1, "dups": [0], "block": [], "limit": 1, "actors": 2, "run": False}
+    total = 0
+    for kind in ("mem", "sqlite"):
+        n = 0
+        for schedule, out in S.explore(lambda p: c02.run_one(kind, scratch, sc, p), max_preemptions=2, max_runs=400 if ctx.thorough else 120,
+                                       preempt_at=c02.critical):
+            n += 1
+            if out["verdict"]:
+                ctx.violation(f"two-requesters:{kind}", f"{kind}: two requesters on one invocation: {out['verdict']}",
+                              {"kind": "two_requesters", "backend": kind, "scenario": sc, "schedule": schedule, "observed": out})
+                break
+        total += n
+    ctx.count(total, total)
+    ctx.notes["two_requesters"] = {"schedules": total, "bound": "DFS <= 2 pre-emptions around the transition"}
+
+
 def main(ctx: Ctx) -> int:
     world.quiet()
     info = ctx.translate("status_table", status_table.translate, "gen/StatusTable_gen.v")
     if info.get("shape_changed"):
         ctx.log("status.py function shapes changed:", info["shape_changed"], "- relying on the exhaustive correspondence")
+    from harness.translate import atomicity
+    ctx.translate("atomicity", atomicity.translate, "gen/Atomicity_gen.v")
     ctx.prove("Props/C01.v")
     scratch = world.scratch_dir()
     try:
         run_single_steps(ctx, scratch)
         run_sequences(ctx, scratch)
+        run_two_requesters(ctx, scratch)
     finally:
         world.rm_scratch(scratch)
     ctx.assumptions += [
@@ -383,6 +409,12 @@ def replay(ctx: Ctx, path: str) -> int:
     scratch = world.scratch_dir()
     try:
         be = Backend(rp["backend"] if rp["backend"] in ("mem", "sqlite") else "mem", scratch)
+        if rp["kind"] == "two_requesters":
+            from harness.props import c02
+            c02.EDGES = c02.D.doc_edges(ctx)
+            _, out = c02.run_one(rp["backend"], scratch, rp["scenario"], rp["schedule"])
+            print(json.dumps(out, indent=1, default=str))
+            return 0
         if rp["kind"] == "single_step":
             cur, req, rid = rp["current"], rp["request"], rp["requester"]
             if rp["backend"] == "pure":
